@@ -95,6 +95,7 @@ func (o *Operations) Move(from string, to string) error {
 		}
 
 		hdr.Size = 0 // Don't try to seek after the record
+		hdr.Format = tar.FormatPAX // The entry might come from a USTAR or GNU archive, which can't carry the records below
 		hdr.Name = path.Join(to, strings.TrimPrefix(strings.TrimPrefix(dbhdr.Name, "/"), strings.TrimPrefix(from, "/")))
 		hdr.PAXRecords[records.STFSRecordVersion] = records.STFSRecordVersion1
 		hdr.PAXRecords[records.STFSRecordAction] = records.STFSRecordActionUpdate
